@@ -190,6 +190,9 @@ func jstring(b []byte, i int) (JNode, int, bool) {
 					return JNode{}, j, jfail("string.bad-escape")
 				}
 				j += 6
+			case 'a', 'v', 'x', '\'', '0', '1', '2', '3', '4', '5', '6', '7', 'U':
+				// escapes of Go string literals that JSON does not have
+				return JNode{}, j, jfail("string.go-escape")
 			default:
 				return JNode{}, j, jfail("string.bad-escape")
 			}
